@@ -274,3 +274,46 @@ prop("C11", "c11",
      level="Randomised generated search with a cache-on/cache-off differential oracle and a remote call-count oracle; bounded exploration.",
      note="Trusted: the recording cache (Redis semantics) and the deterministic scripted remote side.",
      technique="property-based testing: differential cache on vs off + call-count oracle over repeated executions")
+
+prop("C16", "c16",
+     "Key stores assembled per case from fixtures (1-4 entries of RSA 2048/3072/4096 and EC P-256/384/521 in PKCS#8 or "
+     "PKCS#1/SEC1 form, with/without certificate chain and X-Key-ID, key_id selection), signer names, TTLs (prototype and "
+     "rule-level override, incl. a fractional one), subjects, custom-claim templates naming reserved claims (sub, iss, exp, "
+     "iat, nbf, jti with values of other types; prototype and override). Oracle: the token taken from the upstream header "
+     "verifies (standard-library reference verifier) with the key its kid names in the body of the management JWKS endpoint; "
+     "alg/kid equal the active key's; sub = authenticated subject id, iss = signer name, iat = nbf = issue time, exp = iat + "
+     "TTL exactly (+-1 s for fractional TTLs), jti fresh; custom claims appear but never displace those; the JWKS JSON "
+     "contains no private members (d p q dp dq qi k oth) anywhere. Concurrency (-race): 6 issuers, 2 JWKS readers and a "
+     "reloader rewriting the key store between two stores and firing the registered change listener; every token must verify "
+     "with the key published under its kid and every published set is exactly one of the two stores. The same three roles also run as logical threads under generated schedules on a scheduler-instrumented copy of jwt_signer.go (see C07). Non-trivial: custom "
+     "claims name a reserved claim or >= 2 entries; distinct by setup.",
+     [dict(run="^TestIssuedTokensVerifyAndCarrySystemClaims$", quick=400, thorough=4000, shards_thorough=8),
+      dict(run="^TestConcurrentIssuanceAndReload$", quick=1, thorough=1, shards_thorough=1, race=True),
+      dict(run="^TestScheduledIssuanceAndReload$", quick=300, thorough=3000, shards_thorough=4, instrument=True)],
+     ["tokens served from cache across a reload are out of scope (the concurrent part uses a ttl below the caching threshold)",
+      "the concurrent part relies on real goroutine scheduling and the race detector: not reproducible from the seed"],
+     level="Randomised generated search over key stores x claims x TTLs with an independent verifier, plus a race-detector "
+           "stress of issuance vs reload; bounded exploration.",
+     note="Trusted: Go standard library crypto; the race detector for the concurrent part.",
+     technique="property-based testing with reference verifier + -race stress with invariant over every issued token")
+
+prop("C07", "c07",
+     "Engine A (owned schedules): repository_impl.go and radixtree/tree.go of the current tree are instrumented "
+     "automatically (sync.Mutex/RWMutex -> scheduler-aware locks, a yield point before every statement) and injected through "
+     "the build overlay; 4-5 logical threads (one updater per source with 1-3 add/update/delete operations over versions "
+     "that partly claim the same path expression, 1-2 lookup threads) run one at a time, the thread to continue at each of "
+     "the ~10^2-10^3 yield points is taken from a rapid-generated schedule (up to 8 preemptions, start thread, tie break), so "
+     "the interleaving is a shrinkable, replayable value. Engine B: the un-instrumented code under real parallelism and the "
+     "race detector (2 updaters + 6 lookup goroutines per round). Oracle: the completed history (logical call/return times, "
+     "results), extended by final sequential lookups of all probes, must be linearizable (porcupine) w.r.t. a sequential model "
+     "whose lookup results and applicability of changes come from fresh, unscheduled repositories; deadlock (all threads "
+     "blocked), panics and data-race reports are violations. Non-trivial: a context switch while an update is in flight; "
+     "distinct by (schedule trace hash, program).",
+     [dict(run="^TestScheduledHistoriesAreLinearizable$", quick=300, thorough=3000, shards_thorough=12, instrument=True),
+      dict(run="^TestParallelHistoriesAreLinearizable$", quick=1, thorough=1, shards_thorough=2, race=True)],
+     ["yield granularity is the statement of the instrumented files; everything else is atomic in engine A",
+      "engine B depends on real scheduling and is not reproducible from the seed; the recorded history is the artefact"],
+     level="Schedule exploration with generated (shrinkable) interleavings over an automatically instrumented copy plus a "
+           "race-detector stress, both checked for linearizability against a sequential model; bounded exploration.",
+     note="Trusted: porcupine's checker, the scheduler shim (vsync), the instrumenter (inserts yields and swaps lock types only).",
+     technique="schedule-generating property-based testing + linearizability checking (porcupine) + race detector stress")
